@@ -2062,6 +2062,11 @@ def gen_worlds(pid, tier, seed):
             spec["hashseeds"] = [1, 3] if tier == "quick" else [1, 3, 4]
             if k % 4 == 0:
                 spec["min_dv"], spec["max_dv"] = 0, 50
+            if k % 2 == 0:
+                # the YAML loader takes the deadline variance per graph: deadlines are drawn from the fuzz generator,
+                # so the trace depends on how that generator is seeded
+                for g in spec["graphs"]:
+                    g["deadline_variance"] = [20, 120]
         if pid == "C12" and spec["sched"]["name"] == "LSF":
             continue
         key = json.dumps({x: spec[x] for x in spec if x not in ("id", "seed")}, sort_keys=True)
@@ -2344,7 +2349,7 @@ def main():
                    "with different PYTHONHASHSEED and the same --random_seed (YAML workload + "
                    "YAML cluster written to a temp dir): %d graph sets of <=3 graphs x <=4 tasks "
                    "(shapes %s), %d clusters (1-2 pools, 1-2 workers, 1-2 resource types), release "
-                   "policies fixed/closed_loop/poisson/gamma, deadline variance 0 or 0..50%%, "
+                   "policies fixed/closed_loop/poisson/gamma, per-graph deadline variance none or 20..120%% (every second world), "
                    "EDF/FIFO/LSF, enforce_deadlines on/off, scheduler_runtime 0 (fixed by flag), "
                    "scheduler_frequency -1/3, runtime variance 0; outcomes %s; sampled, not "
                    "exhaustive" % (len(worlds), len(worlds[0]["hashseeds"]) if worlds else 0,
